@@ -423,6 +423,40 @@ def syncLoopTasksOnly (wf : Wf) (k : Option Nat) (sorted : List NodeId) (fail : 
 def runSyncTasksOnly (wf : Wf) (k : Option Nat) (sorted : List NodeId) (fail : Ck → Bool) (fuel : Nat) : SyncOutcome × St :=
   syncLoopTasksOnly wf k sorted fail fuel (doPoll wf k sorted (St.init (fun _ => .idle)))
 
+/-- NOT the code: a scan in which `NodeExecution.get_runnable_tasks` returns only the jobs it has *just* unblocked
+    (`runnable`) instead of everything in `queued`.  Documentation (`C15_new_only_loses_jobs`): under a finite
+    `max_concurrent` the jobs cut off by `tasks[:k]` stay in `queued` and are never handed out again. -/
+def scanNewOnly (wf : Wf) (w : World) : List NodeId → NSMap → List NodeId → List Job → NSMap × List Job
+  | [], ns, _, tasks => (ns, tasks)
+  | n :: rest, ns, nst, tasks =>
+    let d := nodeDone w ns n
+    if d.1 then scanNewOnly wf w rest d.2 nst tasks
+    else if (wf.preds n).any (fun p => nst.contains p) then (d.2, tasks)
+    else
+      let nst' := if (d.2.get n).started then nst else n :: nst
+      let r := nodeRunnable wf w d.2 n
+      let fresh := r.2.filter (fun i => !(d.2.get n).queued.contains i)
+      scanNewOnly wf w rest r.1 nst' (tasks ++ fresh.map (fun i => (n, i)))
+
+def doPollNewOnly (wf : Wf) (k : Option Nat) (sorted : List NodeId) (st : St) : St :=
+  let r := scanNewOnly wf st.w sorted st.ns [] []
+  { st with ns := r.1, tasks := truncate k r.2 }
+
+def syncLoopNewOnly (wf : Wf) (k : Option Nat) (sorted : List NodeId) (fail : Ck → Bool) : Nat → St → SyncOutcome × St
+  | 0, st => (.outOfFuel, st)
+  | fuel + 1, st =>
+    let goOn : Bool × St :=
+      if !st.tasks.isEmpty then (true, st) else
+        let a := anyNotDone st.w st.ns wf.g.nodes
+        (a.1, { st with ns := a.2 })
+    if !goOn.1 then (.success, goOn.2) else
+    match runTasks fail goOn.2 goOn.2.tasks with
+    | .error (c, st1) => (.raised c, { st1 with w := setW st1.w c .err })
+    | .ok st1 => syncLoopNewOnly wf k sorted fail fuel (doPollNewOnly wf k sorted st1)
+
+def runSyncNewOnly (wf : Wf) (k : Option Nat) (sorted : List NodeId) (fail : Ck → Bool) (fuel : Nat) : SyncOutcome × St :=
+  syncLoopNewOnly wf k sorted fail fuel (doPollNewOnly wf k sorted (St.init (fun _ => .idle)))
+
 /-- workflow outputs: the values of every node's jobs -/
 def outputs (wf : Wf) (st : St) (n : NodeId) : List Val := (st.ns.get n).cks.map wf.body
 
